@@ -124,6 +124,16 @@ def gen_idx(tier, seed, want_big=True):
             stats["styles"][style] = stats["styles"].get(style, 0) + 1
             b = "n<=4" if len(keys) <= 4 else "n<=64" if len(keys) <= 64 else "n<=1024" if len(keys) <= 1024 else "n>1024"
             stats["n"][b] = stats["n"].get(b, 0) + 1
+    # steep last segment (long duplicate run) + far queries: out-of-range float-to-integer conversions
+    for cfg in [c for c in cfgs if c["kbits"] >= 32]:
+        lo, hi = krange(cfg["kbits"], cfg["signed"])
+        base = rng.choice([858, max(lo, 0) + rng.randint(0, 10 ** 6), lo + 3])
+        m = rng.choice([45, 300, 2 * cfg["eps"] + 40])
+        keys = [base] * m + [base + 6] * 2
+        qs = sorted(set([base, base + 1, base + 6, base + 7, hi - 1, hi - 2] + [base + (1 << j) for j in range(3, cfg["kbits"]) if base + (1 << j) <= hi - 1]))
+        cid += 1
+        cases.append(idx_case("f%d" % cid, cfg, 1, keys, qs))
+        stats["styles"]["steep+far"] = stats["styles"].get("steep+far", 0) + 1
     if want_big:
         # chunked construction: n >= 2^15, 2..16 threads, duplicate runs placed on chunk seams
         bigs = [c for c in cfgs if c["kbits"] >= 32]
